@@ -137,6 +137,10 @@ func (h accountsResourceHandler) Expand(opts common.ResourceQuery[any], property
 		if opts.UsePIT() && !h.store.ledger.HasFeature(features.FeatureMovesHistory, "ON") {
 			return nil, nil, common.NewErrInvalidQuery("feature %s must be 'ON' to use effectiveVolumes with a point in time", features.FeatureMovesHistory)
 		}
+	default:
+		// unknown expansions are ignored, as for transactions; the property names a column
+		// alias of the query below and must never be a client-supplied text
+		return nil, nil, nil
 	}
 
 	selectRowsQuery := h.store.newScopedSelect().
